@@ -23,6 +23,7 @@ RULE = ("One evaluation = one seeded execution of 1-3 real clients (same code, "
         "error happened while the client had a claim or an open mailbox, or "
         "while disconnected, or a fault fired. Distinct: event-log digests "
         "among non-trivial runs.")
+RULE += (' Fault kinds include stall and restart_unwelcome (server restarted with a welcome error).')
 LEVEL_TEXT = ("Seeded exploration. Reference model: the first terminal cause in "
               "the client's own processing order decides the verdict (welcome "
               "error, server error, undecryptable peer message, or close() -> "
